@@ -47,6 +47,8 @@ pub struct Sel {
     pub m3: bool,
     pub ray: Option<usize>,
     pub ep: Option<bool>,
+    /// restrict EP to the shards whose own king stands on one of the 8 spread squares
+    pub ep_spread_only: bool,
     pub castle: Option<bool>,
     pub promo: Option<bool>,
     pub reach: Option<u32>,
@@ -126,9 +128,12 @@ pub fn run_universes(run: &mut Run, sel: &Sel, disagree_idx: usize, check: PosCh
     }
     if let Some(full) = sel.ep {
         run.par_shards(
-            if full { "EP (full)" } else { "EP (quick)" },
+            if full { "EP (full)" } else if sel.ep_spread_only { "EP (quick, own king on 8 spread squares)" } else { "EP (quick)" },
             uni::EP_SHARDS,
             |ctx, sh| {
+                if sel.ep_spread_only && !uni::SPREAD8.contains(&(sh / 2)) {
+                    return;
+                }
                 uni::ep(sh, full, &mut |p| visit(ctx, p, disagree_idx, check));
             },
         );
